@@ -3,8 +3,10 @@ package harness
 import (
 	"bytes"
 	"fmt"
+	"iter"
 	"math"
 	"reflect"
+	"slices"
 	"sort"
 
 	"github.com/google/uuid"
@@ -60,7 +62,7 @@ func (v Val) Any() any {
 		return *v.B
 	case v.M != nil:
 		m := map[string]any{}
-		for k, x := range *v.M {
+		for k, x := range detRange(*v.M) {
 			m[k] = x.Any()
 		}
 		return m
@@ -70,7 +72,7 @@ func (v Val) Any() any {
 
 func (d DocSpec) Any() map[string]any {
 	m := map[string]any{}
-	for k, v := range d {
+	for k, v := range detRange(d) {
 		m[k] = v.Any()
 	}
 	return m
@@ -132,7 +134,7 @@ func DocEqual(a, b any) bool {
 		if !ok || len(x) != len(y) {
 			return false
 		}
-		for k, v := range x {
+		for k, v := range detRange(x) {
 			w, ok := y[k]
 			if !ok || !DocEqual(v, w) {
 				return false
@@ -195,6 +197,40 @@ func PID(i int) uuid.UUID {
 }
 
 func PIDIndex(u uuid.UUID) int { return int(u[14])<<8 | int(u[15]) }
+
+// detRange iterates a map in a key order that is the same in every process (Go's
+// own order is random per iteration): every map loop of the harness goes through it,
+// because the order may decide which simulated call is made first or which of two
+// violations is reported. Entries deleted during the loop are skipped, as in Go.
+func detRange[K comparable, V any](m map[K]V) iter.Seq2[K, V] {
+	return func(yield func(K, V) bool) {
+		keys := make([]K, 0, len(m))
+		for k := range m {
+			keys = append(keys, k)
+		}
+		switch ks := any(keys).(type) {
+		case []string:
+			sort.Strings(ks)
+		case []int:
+			sort.Ints(ks)
+		case []uint64:
+			slices.Sort(ks)
+		case []uuid.UUID:
+			sort.Slice(ks, func(i, j int) bool { return bytes.Compare(ks[i][:], ks[j][:]) < 0 })
+		default:
+			sort.Slice(keys, func(i, j int) bool { return fmt.Sprint(keys[i]) < fmt.Sprint(keys[j]) })
+		}
+		for _, k := range keys {
+			v, ok := m[k]
+			if !ok {
+				continue
+			}
+			if !yield(k, v) {
+				return
+			}
+		}
+	}
+}
 
 func sortedUUIDs(m map[uuid.UUID]struct{}) []uuid.UUID {
 	out := make([]uuid.UUID, 0, len(m))
